@@ -167,6 +167,25 @@ def verify_function(fv):
                 if conj:
                     fv.add_fact(st, z3.ForAll([x], z3.Implies(P.has(sv.term, x), z3.And(*conj)),
                                               patterns=[P.has(sv.term, x), P.get(sv.term, x)]))
+    # closure variables: parameters and locals of the enclosing functions that this nested function reads are arbitrary
+    # values fixed for the duration of the call (typed by a local(...) declaration of the contract, else Any)
+    import ast as _ast
+    own = set(st.env) | {n.id for n in _ast.walk(fv.fn) if isinstance(n, _ast.Name) and isinstance(n.ctx, _ast.Store)}
+    for outer in (fv.enclosing or []):
+        if not isinstance(outer, (_ast.FunctionDef, _ast.AsyncFunctionDef)):
+            continue
+        names = [a.arg for a in outer.args.args] + [
+            n.id for n in _ast.walk(outer) if isinstance(n, _ast.Name) and isinstance(n.ctx, _ast.Store)]
+        used = {n.id for n in _ast.walk(fv.fn) if isinstance(n, _ast.Name) and isinstance(n.ctx, _ast.Load)}
+        for n in names:
+            if n in own or n in st.env:
+                continue        # (bound even if the body does not read it: the contract may talk about it)
+            dt = fv.declared_local(n)
+            sv = E.fresh(n, dt if dt is not None else ANY)
+            st.env[n] = sv
+            tf = fv.typed_fact(sv.term, sv.ty)
+            if not z3.is_true(tf):
+                fv.add_fact(st, tf)
     if fv.cls is not None and real and real[0] == 'self' and 'self' in st.env and fv.cls.key in E.fe.classes:
         # the receiver's dynamic class is one that inherits exactly this implementation
         fe = E.fe
